@@ -5,6 +5,7 @@
 package main
 
 import (
+	"encoding/json"
 	"fmt"
 	"math"
 	"math/rand"
@@ -294,6 +295,69 @@ func deterministic(b *benchseries.Builder, policy int) bool {
 	return true
 }
 
+// statefulChecks exercises one Builder and the series it hands out the way a long-lived caller would:
+//   twice    AllComparisonSeries called twice gives the same series (the first call sorts cell storage in place)
+//   sumtwice AddSummaries called twice on the same series gives the same summaries
+//   keep     AddSummaries with other (confidence, N) afterwards keeps the existing summaries ("adds the missing ones")
+//   rebuild  the caller reverses every sample slice of the returned series (they alias the Builder's cells), builds
+//            again from the same Builder: same series and same summaries as before
+func statefulChecks(rs []res, order []int, ntable, policy int) string {
+	b := newBuilder(ntable)
+	for _, i := range order {
+		b.Add(rs[i].toResult())
+	}
+	build := func() ([]*benchseries.ComparisonSeries, string) {
+		var css []*benchseries.ComparisonSeries
+		var err error
+		quiet(func() { css, err = b.AllComparisonSeries(nil, policy) })
+		if err != nil {
+			return nil, "!err"
+		}
+		return css, dumpSeries(css)
+	}
+	bit := func(x bool) int {
+		if x {
+			return 1
+		}
+		return 0
+	}
+	_, d1 := build()
+	css2, d2 := build()
+	s1 := summariesOf(css2)
+	s2 := summariesOf(css2)
+	keep := ""
+	for _, cs := range css2 {
+		cs.AddSummaries(0.5, 3)
+		for _, bn := range cs.Benchmarks {
+			for _, sr := range cs.Series {
+				if sum, ok := cs.SummaryAt(bn, sr); ok && sum != nil && sum.Present {
+					keep += hx.HexS(cs.Unit) + "/" + hx.HexS(bn) + "/" + hx.HexS(sr) + "=" + sumBits(sum) + ","
+				}
+			}
+		}
+	}
+	keep = strings.TrimSuffix(keep, ",")
+	for _, cs := range css2 {
+		for _, bn := range cs.Benchmarks {
+			for _, sr := range cs.Series {
+				if c, ok := cs.ComparisonAt(bn, sr); ok {
+					for _, cell := range []*benchseries.Cell{c.Numerator, c.Denominator} {
+						if cell != nil {
+							v := cell.Values
+							for i, j := 0, len(v)-1; i < j; i, j = i+1, j-1 {
+								v[i], v[j] = v[j], v[i]
+							}
+						}
+					}
+				}
+			}
+		}
+	}
+	css3, d3 := build()
+	s3 := summariesOf(css3)
+	return fmt.Sprintf("twice=%d sumtwice=%d keep=%d rebuild=%d", bit(d1 == d2), bit(s1 == s2), bit(keep == s1), bit(d3 == d1 && s3 == s1))
+}
+
 func tableNames(b *benchseries.Builder) string {
 	t, _ := b.VerifContribs()
 	sort.Strings(t)
@@ -379,7 +443,7 @@ func seriesCaseN(rs []res, ntable, policy int, r *hx.Rand, tags []string, reps i
 			}
 		}
 	}
-	hx.Printf("sobs %d inv=%d rep=%d dump=%s\n", cid, inv, rep, first)
+	hx.Printf("sobs %d inv=%d rep=%d %s dump=%s\n", cid, inv, rep, statefulChecks(rs, ident, ntable, policy), first)
 }
 
 // ---------------------------------------------------------------- series generators
@@ -1132,6 +1196,133 @@ func incrCases(r *hx.Rand) {
 	}
 }
 
+// ---------------------------------------------------------------- JSON round trip of a summarised series + more results
+
+// jsonCase: summarise the old points, write the series as JSON, read it back, hand it to AllComparisonSeries as
+// `existing` together with a Builder that holds only NEW points (other benchmarks of the same table), summarise.
+// The restored summaries must survive bit for bit, the new points must get the summaries their samples produce
+// alone, the axes are the sorted unions.  (Overlapping old/new points are a TODO in the code and are not generated.)
+func jsonCase(old, fresh []point, conf float64, n int, tag string) {
+	cid := id
+	id++
+	hx.Printf("case %d kind=json nold=%d nnew=%d conf=%s n=%d tag=%s\n", cid, len(old), len(fresh), hx.F64(conf), n, tag)
+	defer func() {
+		if e := recover(); e != nil {
+			hx.Printf("crash %d %s\n", cid, strings.ReplaceAll(fmt.Sprint(e), "\n", " "))
+		}
+	}()
+	cs0, bn0, sr0 := buildPoints(old)
+	cs0.AddSummaries(conf, n)
+	var want []string
+	for i := range old {
+		sum, _ := cs0.SummaryAt(bn0[i], sr0[i])
+		want = append(want, sumBits(sum)+"@"+sum.Date)
+	}
+	data, err := json.Marshal([]*benchseries.ComparisonSeries{cs0})
+	if err != nil {
+		panic(err)
+	}
+	var restored []*benchseries.ComparisonSeries
+	if err := json.Unmarshal(data, &restored); err != nil {
+		panic(err)
+	}
+	// the new points sit at benchmarks after the old ones
+	b := newBuilder(0)
+	var bn1, sr1 []string
+	for i, p := range fresh {
+		bn := "B" + strconv.Itoa(len(old)+i)
+		s := i % 2
+		add := func(role string, v float64) {
+			b.Add(res{bench: bn, exp: "2021-01-01T00:00:00Z", ser: stampsA[s], role: role, nh: "n" + strconv.Itoa(s), dh: "d", units: []string{"ns/op"}, vals: []float64{v}}.toResult())
+		}
+		for _, v := range p.nu {
+			add("num", v)
+		}
+		for _, v := range p.de {
+			add("den", v)
+		}
+		ser, _ := benchseries.NormalizeDateString(stampsA[s])
+		bn1, sr1 = append(bn1, bn), append(sr1, ser)
+	}
+	css, err := b.AllComparisonSeries(restored, benchseries.DUPE_REPLACE)
+	if err != nil || len(css) != 1 {
+		panic(fmt.Sprint("merge failed: ", err, len(css)))
+	}
+	cs := css[0]
+	kept, newsame := 1, 1
+	if len(fresh) == 0 {
+		// No new result for this unit: AllComparisonSeries hands the restored series back untouched (its cells are
+		// not rebuilt).  Judged here: the summaries grid is intact.  NOT judged (recorded finding, notes/C18.md,
+		// corpus/C18/N9_json_wipe_test.go.txt): a following AddSummaries call replaces every restored summary by an
+		// empty one, because it looks points up in the cell map that was never rebuilt.
+		for i := range old {
+			var sum *benchseries.ComparisonSummary
+			for si, sr := range cs.Series {
+				for bi, bn := range cs.Benchmarks {
+					if sr == sr0[i] && bn == bn0[i] {
+						sum = cs.Summaries[si][bi]
+					}
+				}
+			}
+			if sum == nil || !sum.Defined() || sumBits(sum)+"@"+sum.Date != want[i] {
+				kept = 0
+			}
+		}
+	} else {
+		cs.AddSummaries(conf, n)
+		for i := range old {
+			sum, ok := cs.SummaryAt(bn0[i], sr0[i])
+			if !ok || sum == nil || !sum.Defined() || sumBits(sum)+"@"+sum.Date != want[i] {
+				kept = 0
+			}
+		}
+	}
+	for i, p := range fresh {
+		one, b1, s1 := buildPoints([]point{p})
+		one.AddSummaries(conf, n)
+		ref, _ := one.SummaryAt(b1[0], s1[0])
+		sum, ok := cs.SummaryAt(bn1[i], sr1[i])
+		if !ok || sum == nil || !sum.Defined() || sumBits(sum) != sumBits(ref) {
+			newsame = 0
+		}
+	}
+	union := func(a, b []string) []string {
+		m := map[string]bool{}
+		for _, x := range append(append([]string{}, a...), b...) {
+			m[x] = true
+		}
+		var out []string
+		for x := range m {
+			out = append(out, x)
+		}
+		sort.Strings(out)
+		return out
+	}
+	axes := 0
+	if strings.Join(cs.Benchmarks, ",") == strings.Join(union(bn0, bn1), ",") && strings.Join(cs.Series, ",") == strings.Join(union(sr0, sr1), ",") {
+		axes = 1
+	}
+	hx.Printf("sobs %d kept=%d newsame=%d axes=%d\n", cid, kept, newsame, axes)
+}
+
+func jsonCases(r *hx.Rand) {
+	a, b := []float64{10, 11, 12, 13}, []float64{20, 21, 23}
+	jsonCase([]point{{a, b}, {b, a}}, []point{{a, a}, {b, b}}, 0.95, 10, "corpus+json")
+	jsonCase([]point{{a, b}}, nil, 0.9, 5, "corpus+json+nonew")
+	nj := hx.N(40, 600)
+	for i := 0; i < nj; i++ {
+		kind := r.Intn(4)
+		mk := func(k int) []point {
+			var out []point
+			for j := 0; j < k; j++ {
+				out = append(out, point{genSample(r, 1+r.Intn(5), kind), genSample(r, 1+r.Intn(5), kind)})
+			}
+			return out
+		}
+		jsonCase(mk(1+r.Intn(3)), mk(r.Intn(4)), hx.Pick(r, []float64{0.95, 0.9, 0.8}), []int{2, 3, 5, 10}[r.Intn(4)], "json")
+	}
+}
+
 func genSample(r *hx.Rand, n int, kind int) []float64 {
 	out := make([]float64, n)
 	base := float64(1 + r.Intn(1000))
@@ -1436,5 +1627,6 @@ func main() {
 	bootstrapCases(r)
 	multiCases(r)
 	incrCases(r)
+	jsonCases(r)
 	dateCases(r)
 }
